@@ -492,3 +492,54 @@ Example get_mult_table_total_ex :
     = Done [:: [:: [:: 1; 0]; [:: 0; 1]]; [:: [:: 0; 1]; [:: 1; 1]]]%Z
   /\ get_mult_table [:: [:: Q2Qc (1 # 2); Q2Qc 0]; [:: Q2Qc 0; Q2Qc (1 # 2)]] [:: -5; 0; 1]%Z = Panic PAssert.
 Proof. by split; vm_compute. Qed.
+
+(** ** [P] get_inv_diff_total (seventh wave): [MultTable::get_inv_diff] returns exactly when the trace form is
+    non-degenerate.  On every n x n x n table (n >= 1, nothing else assumed), with Tr = [trace_form t n] the integer
+    matrix Tr_ij = trace(w_i w_j): if det Tr <> 0 then [mt_inv_diff] returns some (l, N) (about which
+    [inv_diff_dual] speaks); if det Tr = 0 the outcome is the panic of [unwrap] on [Err(MatrixNotInvertible)].
+    No other outcome exists (the function has no unbounded loop: no [OutOfFuel]). *)
+From RNT.Refine Require W7MiscInvDiff.
+Theorem get_inv_diff_total (n : nat) (t : table) : cube n t -> (0 < n)%N ->
+  (\det (trace_form t n) <> 0 -> exists l N, mt_inv_diff t = Done (l, N)) /\
+  (\det (trace_form t n) = 0 -> mt_inv_diff t = Panic PUnwrap).
+Proof. exact (@W7MiscInvDiff.mt_inv_diff_total2 n t). Qed.
+Theorem get_inv_diff_returns_iff (n : nat) (t : table) : cube n t -> (0 < n)%N ->
+  ((exists l N, mt_inv_diff t = Done (l, N)) <-> \det (trace_form t n) <> 0).
+Proof. exact (@W7MiscInvDiff.mt_inv_diff_returns_iff n t). Qed.
+(* non-vacuity: the table of Q[x]/(x^2) on (1, x) (Tr = [[2, 0], [0, 0]], degenerate) panics; Z[sqrt(-5)] and the
+   cubic table return (inv_diff_dual_ex above) *)
+Example get_inv_diff_total_ex :
+  let t0 := [:: [:: [:: 1; 0]; [:: 0; 1]]; [:: [:: 0; 1]; [:: 0; 0]]]%Z in
+  [/\ cube 2 t0, mt_inv_diff t0 = Panic PUnwrap, cube 3 t_cubic
+    & mt_inv_diff t_cubic = Done (31%Z, [:: [:: 31; 0; 0]; [:: 0; 31; 0]; [:: 11; 14; 1]]%Z)].
+Proof. by split; vm_compute. Qed.
+
+(** ** [P] to_z_basis_spec (seventh wave): [Order::to_z_basis] returns THE rational coordinate vector.
+    For a basis b of n rows of length n with non-zero determinant and every coefficient list a of length <= n
+    (canonical or not): [to_z_basis b a] returns a vector x of length n with sum_k x_k b_k = a
+    ([of_coords n b x = Poly a]), and x is the only vector of length n with that property.  Partial correctness
+    without the determinant hypothesis ([to_z_basis_ok]); on a singular square basis the outcome is the panic of
+    [expect] on [Err(MatrixNotInvertible)] ([to_z_basis_singular]). *)
+From RNT.Refine Require W7MiscZBasis.
+Theorem to_z_basis_spec (n : nat) (b : seq (seq Qc)) :
+  size b = n -> (forall i, (i < n)%N -> size (nth [::] b i) = n) ->
+  forall a : seq Qc, \det (qmx n n b) != 0 -> (size a <= n)%N ->
+  exists x, [/\ to_z_basis b a = Done x, size x = n, of_coords n b x = Poly a
+              & forall y, size y = n -> of_coords n b y = Poly a -> y = x].
+Proof. exact (@W7MiscZBasis.to_z_basis_spec n b). Qed.
+Theorem to_z_basis_ok (n : nat) (b : seq (seq Qc)) :
+  size b = n -> (forall i, (i < n)%N -> size (nth [::] b i) = n) ->
+  forall a x : seq Qc, (size a <= n)%N ->
+  to_z_basis b a = Done x -> size x = n /\ of_coords n b x = Poly a.
+Proof. exact (@W7MiscZBasis.to_z_basis_ok n b). Qed.
+Theorem to_z_basis_singular (n : nat) (b : seq (seq Qc)) :
+  size b = n -> (forall i, (i < n)%N -> size (nth [::] b i) = n) ->
+  forall a : seq Qc, \det (qmx n n b) = 0 -> to_z_basis b a = Panic PUnwrap.
+Proof. exact (@W7MiscZBasis.to_z_basis_singular n b). Qed.
+(* non-vacuity: 3/4 + (1/4) sqrt 5 = 1/2 * 1 + 1/2 * (1 + sqrt 5)/2 on the basis of Z[(1 + sqrt 5)/2]; a singular basis panics *)
+Example to_z_basis_spec_ex :
+  Base.omap (List.map this)
+    (to_z_basis [:: [:: Q2Qc 1; Q2Qc 0]; [:: Q2Qc (1 # 2); Q2Qc (1 # 2)]] [:: Q2Qc (3 # 4); Q2Qc (1 # 4)])
+    = Done [:: (1 # 2)%Q; (1 # 2)%Q]
+  /\ to_z_basis [:: [:: Q2Qc 1; Q2Qc 2]; [:: Q2Qc 2; Q2Qc 4]] [:: Q2Qc 1; Q2Qc 1] = Panic PUnwrap.
+Proof. by split; vm_compute. Qed.
